@@ -62,6 +62,8 @@ AllDev == {"CMapNameUnconfined",     \* _load_data joins the name unchecked: any
            "ImageNameUnconfined",    \* _create_unique_image_name joins the XObject name unchecked
            "ScreenBeforeStrip",      \* containment only tested for names that LOOK dangerous (absolute / contain ..),
                                      \* judged on the raw name before its NULs are removed
+           "NumberingBounded",       \* the uniqueness loop gives up after 100 candidates and opens the last one it BUILT
+                                     \* (name.99.ext) without having tested it
            "NormaliseAfterSanitise", \* the image name is NFKC-normalised AFTER separators were replaced: fullwidth solidus and
                                      \* full stop turn into real ones behind the check
            "ExtFieldsUnvalidated",   \* _save_raw builds the extension ".<bits>.<width>x<height>.img" from the image dictionary's
@@ -224,7 +226,11 @@ LigSplit == "NormaliseAfterSanitise" \in Dev /\ name.look = "lig" /\ (name.abs \
 \* directory the image file lands in: as coded join(outdir, name + ext); intended: always the output directory
 Target == IF Coded THEN ParentDir(Out, name) ELSE Out
 \* first candidate index that does not exist: -1 (name.ext), 0 (name.0.ext), 1, 2 ...
-FirstFree(S) == IF -1 \notin S THEN -1 ELSE CHOOSE k \in 0..3 : k \notin S /\ \A j \in 0..(k - 1) : j \in S
+MaxIdx == 400        \* (more than any run of occupied candidates plus the exports of one behaviour)
+TrueFirstFree(S) == IF -1 \notin S THEN -1 ELSE CHOOSE k \in 0..MaxIdx : k \notin S /\ \A j \in 0..(k - 1) : j \in S
+\* the loop "while exists(path): name = name.<i>.ext; i += 1" has no bound: however long the run of occupied
+\* candidates, the first free one is found.  NumberingBounded: "... and i < 100" - candidate 99 is the last one built
+FirstFree(S) == LET k == TrueFirstFree(S) IN IF "NumberingBounded" \in Dev /\ k > 99 THEN 99 ELSE k
 
 (* The file name is  sanitised-name ++ extension.  The extension is ".bmp" on the bitmap route; on the "unknown    *)
 (* encoding" route (_save_raw) it is "." bits "." width "x" height ".img", and bits/width/height are whatever the   *)
@@ -267,7 +273,8 @@ AExport ==
              ELSE /\ creates' = Append(creates, [dir |-> T, k |-> k, existed |-> k \in outfiles])
                   /\ outfiles' = outfiles \cup {k}
                   /\ drawn' = drawn + 1
-                  /\ blame' = IF InOut(T) THEN blame
+                  /\ blame' = IF k \in outfiles THEN blame \cup {"NumberingBounded"}
+                              ELSE IF InOut(T) THEN blame
                               ELSE IF IllTyped THEN blame \cup {"ExtFieldsUnvalidated"}
                               ELSE IF name.look # "ascii" THEN blame \cup {"NormaliseAfterSanitise"}
                               ELSE blame \cup {"ImageNameUnconfined"}
@@ -287,9 +294,10 @@ ReadsConfined == \A r \in reads : InResource(r[1]) \/ blame \cap {"CMapNameUncon
 \* every file created lies inside the output directory
 WritesConfined == \A k \in 1..Len(creates) : InOut(creates[k].dir) \/ blame \cap {"ImageNameUnconfined", "ExtFieldsUnvalidated", "NormaliseAfterSanitise"} # {}
 \* a path that exists is never opened for writing
-NeverOverwrite == \A k \in 1..Len(creates) : ~creates[k].existed
+NeverOverwrite == \A k \in 1..Len(creates) : ~creates[k].existed \/ "NumberingBounded" \in blame
 \* two exports never land on the same file
 DistinctNames == \A j, k \in 1..Len(creates) : j # k => <<creates[j].dir, creates[j].k>> # <<creates[k].dir, creates[k].k>>
+                                                            \/ "NumberingBounded" \in blame
 BlameSound == blame \subseteq Dev
 \* the lookup terminates having tried each directory at most once
 LookupBounded == Len(dirs) <= 2
